@@ -90,6 +90,16 @@ def r_sib_xlsx(ctx, rep):
             reads = tuple(sorted(_self_reads(arm["body"]) & {"row_index", "col_index"}))
             leaves = always_leaves(arm["body"], top["targets"])
             ctxs[(ev, gl)] = {"effects": effects, "cursor_reads": reads, "leaves": leaves, "arm": arm}
+            if any(g in ("row", b"row") or (isinstance(g, str) and g.strip("b\"'") == "row") for g in gl):
+                # the <row> / </row> arms only move the cursor: the closing tag is what advances row_index, so an arm that
+                # pulls events itself (read_to_end_into, a nested read_event_into) makes later rows keep a stale index
+                pulls = [m for m in walk_k(arm["body"], "MethodCall") if m["name"].startswith("read_") and (field_chain(m["recv"]) or (None, []))[1][:1] == ["xml"]]
+                pulls += [c for c in walk_k(arm["body"], "Call") if any((field_chain(x) or (None, []))[1][:1] == ["xml"] for arg in c.get("args", []) for x in walk(arg) if isinstance(x, dict) and x.get("k") == "Field")]
+                kk = "XlsxCellReader|R-SIB-XLSX|%s row arm pulls no events|%s" % (ev, fn.name.rsplit("::", 1)[-1])
+                if pulls:
+                    rep.violation("R-SIB-XLSX", kk, loc(pulls[0]), "%s: the %s arm for `row` consumes reader events itself: the `</row>` that advances row_index (and resets col_index) can be swallowed, so rows without an `r` attribute are reported on the wrong row" % (fn.name, ev))
+                else:
+                    rep.holds("R-SIB-XLSX", kk, loc(arm), "the row arm leaves the event stream to the main loop")
         summ[fn.name] = ctxs
     ca, cb = summ[a.name], summ[b.name]
     cursor_fields = set()
@@ -292,7 +302,14 @@ def r_deleg(ctx, rep):
                 continue
             m = ms[0]
             seen = set()
-            for arm in m["arms"]:
+            # an or-pattern arm (`Sheets::Xls(_) | Sheets::Ods(_) => ..`) stands for one arm per alternative
+            alt_arms = []
+            for arm0 in m["arms"]:
+                p0 = arm0["pat"]
+                alts = p0["pats"] if p0.get("k") == "Or" else [p0]
+                for ap in alts:
+                    alt_arms.append(dict(arm0, pat=ap))
+            for arm in alt_arms:
                 v = pat_variant(arm["pat"])
                 if not v or "Sheets::" not in v:
                     continue
@@ -465,6 +482,21 @@ def r_tight(ctx, rep):
                     rep.holds("R-TIGHT", key, loc(n), "push guarded by cell.pos.0 >= header_row")
                 else:
                     rep.violation("R-TIGHT", key, loc(n), "%s (HeaderRow::Row): %s; rows below n must be dropped and row n itself kept" % (fn.name, why))
+            # (d) no cell is dropped because of *where* it is, other than rows above the header row: a condition on the
+            # way to the push, or the guard of an earlier arm that swallows `Some(cell)`, may mention `.pos` only as
+            # the comparison of the row with the header row
+            key = "%s|R-TIGHT|push#%d|position-filter" % (fn.name, n_push)
+            from .kit import reach_conds
+            conds = list(reach_conds(n, anc))
+            if m is not None and arm_i is not None:
+                for a in m["arms"][:arm_i]:
+                    if a.get("guard") is not None and not _is_empty_filter_arm(a) and any(pat_variant(x) and pat_variant(x).endswith("Some") for x in walk(a["pat"]) if isinstance(x, dict) and x.get("k") in ("TupleStruct", "Variant", "Path")):
+                        conds.append(a["guard"])
+            bad = [c for c in conds if _pos_filter(c, hr[1] if hr else set())]
+            if bad:
+                rep.violation("R-TIGHT", key, loc(bad[0]), "%s: a cell is kept or dropped by a test on its position other than `row >= header row` (a cell on the last row / column of the grid, or any cell the test misjudges, silently disappears from the range)" % fn.name)
+            else:
+                rep.holds("R-TIGHT", key, loc(n), "no condition on the way to the push looks at the cell's position except the header-row comparison")
         if n_push < 2:
             rep.anchor_missing("R-TIGHT", "cells.push sites in %s (found %d)" % (fn.name, n_push))
         # (c) the pad: insert(0, Cell{pos:(n, ..), val: Empty}) guarded by first.pos.0 != n
@@ -520,6 +552,18 @@ def r_tight(ctx, rep):
             rep.holds("R-TIGHT", key, loc(n), "an Empty cell at (n, first column) is inserted in front iff the first kept cell is not on row n")
         else:
             rep.violation("R-TIGHT", key, loc(n), "%s: the header-row padding is wrong (insert at index 0: %s, row is n: %s, value Empty: %s, condition first.pos.0 != n: %s)" % (fn.name, ok_idx, ok_row, ok_val, ok_cond))
+
+
+def _pos_filter(cond, hr_lids):
+    """does the condition look at `<x>.pos` other than in `<x>.pos.0 >= n` / `n <= <x>.pos.0` (n the header-row binding)?"""
+    ok_ids = set()
+    for c in walk_k(cond, "Binary"):
+        l_row, r_row = _is_pos_row(c["l"]), _is_pos_row(c["r"])
+        l_n = path_local(c["l"]) and path_local(c["l"])[1] in hr_lids
+        r_n = path_local(c["r"]) and path_local(c["r"])[1] in hr_lids
+        if (l_row and r_n) or (r_row and l_n):
+            ok_ids |= {id(x) for x in walk(c)}
+    return any(isinstance(x, dict) and x.get("k") == "Field" and x.get("name") == "pos" and id(x) not in ok_ids for x in walk(cond))
 
 
 def _is_pos_row(e):
